@@ -30,8 +30,9 @@ func init() {
 		Rule: "cases: generated valid JSON texts, their mutants, boundary numbers/escapes, documents with a token across the 4096/8192 refill boundary, generated SEN texts (bare tokens, optional commas, comments, single quotes, + concatenation, token functions) and their mutants, " +
 			"and multi-document streams of 0-6 documents; every input is delivered as []byte and through readers under chunk plans (whole, 1-byte, fixed 2/3/7/4095/4096/4097, every single split point up to 200 bytes, random splits, (n>0,EOF) last read) to every route of its family " +
 			"(oj.Parser, oj.Tokenizer+collector, oj.Tokenizer+alt.Builder, gen.Parser, oj.Validator, and for strict JSON the SEN parser; sen.Parser, sen.ParseReader, sen.Tokenizer) in single- and multi-document (callback, channel, and for Parser{Reuse:true} a channel that is read only after the call returned) mode; outcomes (error flag, exact trees, document sequences) must be identical. " +
-			"non-trivial: input of at least 2 bytes that is not rejected at its first byte; distinct by digest of (input, mode)",
+			"also two strings per document built from escape pieces that carry state between \\u escapes (lone and paired surrogates behind plain characters), and top-level scalars directly followed by a comment. non-trivial: input of at least 2 bytes that is not rejected at its first byte; distinct by digest of (input, mode)",
 		Assumptions: []string{
+			"a top-level number or bare token directly followed by a comment that runs to the end of the input is F-C03-sentopcomment",
 			"tree equality is exact including numeric representation (int64 vs float64 vs json.Number text)",
 			"for inputs that are not valid strict JSON the SEN routes are compared only among themselves",
 			"error positions/messages are not compared here (C09)",
